@@ -54,6 +54,7 @@ def shards(tier, seed):
     for i in range(4):
         out.append({"name": "frets-%d" % i, "kind": "frets", "part": i, "parts": 4, "weight": 6})
     out.append({"name": "lookup", "kind": "lookup", "weight": 3})
+    out.append({"name": "lookup-history", "kind": "lookuphist", "n": 40 if tier == "quick" else 400, "weight": 3})
     n = 4000 if tier == "quick" else 40000
     parts = 8 if tier == "quick" else 16
     for i in range(parts):
@@ -168,6 +169,53 @@ def run(shard, ctx):
         st, rs = ctx.call(TU.get_tunings)
         ctx.check("lookup: get_tunings() lists every registered tuning", st == "ok" and len(rs) == len(tun), {}, len(tun), repr(rs)[:80])
         ctx.sample({"instruments": insts[:8], "get_tuning('guitar','standard',6,1)": tname(TU.get_tuning("guitar", "standard", 6, 1))})
+    elif kind == "lookuphist":
+        # the registry after a history of registrations: new instruments, and descriptions registered again with another
+        # number of strings or of courses (seed C20-11A); this shard is its own process, so the registry is its own
+        rng = ctx.rng("lookuphist")
+        model = dict(((t.instrument.upper(), t.description.upper()), t) for t in tun)
+        pool = ["E-2", "A-2", "D-3", "G-3", "B-3", "E-4", "A-4", "C-3"]
+        hist = []
+        for h in range(shard["n"]):
+            if rng.random() < 0.5 or not hist:
+                I, D = rng.choice(["Travel guitar", "Cigar box", "Guitar", "Bouzouki x"]), rng.choice(["Standard tuning", "Open", "odd"])
+            else:
+                I, D = hist[-1][0], hist[-1][1]          # the same entry once more, in another shape
+                if rng.random() < 0.5:
+                    I, D = I.lower(), D.upper()
+            k = rng.randint(3, 7)
+            names = pool[:k]
+            shape = rng.choice([1, 1, 2, 3])
+            strs = names if shape == 1 else [[n] + [n[:-1] + str(int(n[-1]) + 1)] * (shape - 1) for n in names]
+            st, r = ctx.call(TU.add_tuning, I, D, strs)
+            hist.append((I, D, k, shape))
+            w = {"registrations": hist[-4:]}
+            if st != "ok":
+                ctx.check("lookup: a tuning can be registered", False, w, None, repr(r), mechanism="add_tuning")
+                break
+            model[(I.upper(), D.upper())] = (k, shape)
+            reg = TU.get_tunings()
+            ctx.check("lookup: get_tunings() lists every registered tuning", len(reg) == len(model), w, len(model), len(reg), mechanism="registered")
+            for ns in (None, k, 6):
+                for ncs in (None, shape, 1, 2):
+                    st, rs = ctx.call(TU.get_tunings, None, ns, ncs)
+                    want = [x for x in reg if (ns is None or strings_of(x) == ns) and (ncs is None or courses_of(x) == ncs)]
+                    ok = st == "ok" and len(rs) == len(want) and all(any(x is y for y in rs) for x in want)
+                    ctx.check("lookup: get_tunings returns only tunings satisfying all given constraints", ok,
+                              dict(w, strings=ns, courses=ncs), len(want), len(rs) if st == "ok" else repr(rs), mechanism="get_tunings-history")
+                    st, r = ctx.call(TU.get_tuning, I, D, ns, ncs)
+                    fits = (ns is None or ns == k) and (ncs is None or ncs == shape)
+                    ok = st == "ok" and (r is None or ((ns is None or strings_of(r) == ns) and (ncs is None or courses_of(r) == ncs)))
+                    ctx.check("lookup: get_tuning returns only a tuning satisfying all given constraints", ok,
+                              dict(w, strings=ns, courses=ncs), None, tname(r) if st == "ok" and r is not None else repr(r),
+                              mechanism="get_tuning-history")
+                    if fits and I.upper() not in ("GUITAR",):
+                        ctx.check("lookup: a registered tuning is found by its own instrument, description, string and course count",
+                                  st == "ok" and r is not None and strings_of(r) == k and courses_of(r) == shape,
+                                  dict(w, strings=ns, courses=ncs), [k, shape], tname(r) if st == "ok" and r is not None else repr(r),
+                                  mechanism="get_tuning-self-history")
+            ctx.case(("lookuphist", h, I, D, k, shape), nontrivial=True)
+        ctx.sample({"registrations": hist[:5]})
     elif kind == "fingering":
         rng = ctx.rng("fingering")
         for i in range(shard["n"]):
